@@ -166,3 +166,60 @@ func H_C10_port(carrier, d int) {
 	}
 	vReach("end")
 }
+
+// H_C10_hdr: the numeric headers inside a header line (ParseHdrLine with
+// header-specific value parsing), delivered in two pieces with every cut:
+// kind 0 = Expires, 1 = Content-Length, 2 = CSeq number.
+func H_C10_hdr(kind, d int) {
+	dig := vBytes(d)
+	vAssume(vAllDigits(dig))
+	name := "Expires:"
+	lim := uint64(refU32Max)
+	switch kind {
+	case 1:
+		name = "Content-Length: "
+		lim = 1 << 24
+	case 2:
+		name = "CSeq:"
+	}
+	buf := append([]byte(name), dig...)
+	if kind == 2 {
+		buf = append(buf, ' ', 'A')
+	}
+	buf = append(buf, '\r', '\n', 'X')
+	var h Hdr
+	var pv PHdrVals
+	c := 1 + vChoice(len(buf)-1)
+	o, e := ParseHdrLine(buf[:c], 0, &h, &pv)
+	if e == ErrHdrMoreBytes {
+		o, e = ParseHdrLine(buf, o, &h, &pv)
+		vReach("resumed")
+	}
+	ref, sat := refDec(dig, lim)
+	if kind == 1 {
+		sat = vOr(sat, d > 9)
+	} else if kind == 2 {
+		sat = vOr(sat, d > 10) // CSeq numbers of more than 10 digits may be rejected
+	}
+	vObs("o", o)
+	vObs("e", int(e))
+	if e == 0 {
+		vAssert("accepted-fits", !sat)
+		var got uint64
+		switch kind {
+		case 0:
+			got = uint64(pv.Expires.UIVal)
+		case 1:
+			got = uint64(pv.CLen.UIVal)
+		case 2:
+			got = uint64(pv.CSeq.CSeqNo)
+		}
+		vAssert("accepted-exact", got == ref)
+		vReach("accepted")
+	} else {
+		vAssert("rejected-only-if-too-big", sat)
+		vAssert("rejection-is-definitive", e != ErrHdrMoreBytes)
+		vReach("rejected")
+	}
+	vReach("end")
+}
